@@ -3,6 +3,7 @@
 package snap
 
 import (
+	"fmt"
 	"net"
 	"runtime"
 	"strings"
@@ -59,6 +60,7 @@ func serfLeave(c *snapCase, x *vkit.Ctx) {
 	}
 	alive := map[string]string{}
 	k := 0
+	expectEvents := 1 // the node's own join
 	for _, op := range c.Ops {
 		if op.K == opGracefulLeave {
 			break
@@ -75,11 +77,23 @@ func serfLeave(c *snapCase, x *vkit.Ctx) {
 		if op.K == opJoin {
 			n.EventsD.NotifyJoin(mn)
 			alive[name] = (&net.TCPAddr{IP: ip, Port: int(port)}).String()
+			expectEvents++
 		} else {
+			if _, isAlive := alive[name]; isAlive {
+				expectEvents++ // alive -> failed produces an event; anything else does not
+			}
 			n.EventsD.NotifyLeave(mn)
 			delete(alive, name)
 		}
 		k++
+	}
+	// An event reaches the application channel only after the snapshotter's tee
+	// has handed it to the snapshot stream, so once all of them have arrived
+	// here none is still in flight in front of the snapshotter.
+	if got, ok := n.WaitEvents(20*time.Second, func(ev []serf.Event) bool { return len(ev) >= expectEvents }); !ok {
+		x.Inconclusive(fmt.Sprintf("serf-layer: %d of %d member events arrived", len(got), expectEvents))
+		n.Stop()
+		return
 	}
 	// let the snapshotter take in what was sent before the leave
 	dl := time.Now().Add(10 * time.Second)
